@@ -20,6 +20,8 @@
 
   A loss channel is known to the model by the two amplitudes `c = √(1 - loss)` (stay) and
   `s = √loss` (leave) — the numbers `cos(θ/2)`, `sin(θ/2)` of `BS.H(BS.r_to_theta(1 - loss))`.
+  The amplitude-level paths (`LossSimulator.evolve`, `LC.apply`, the off-diagonal entries of
+  `DensityMatrix.apply_loss`, a noisy source) are in `Model/C07SV.lean`.
   External (assumed, exercised by the correspondence): the strong-simulation backend returns the
   Fock-space probabilities `Fock.prob` of the matrix it is given (that is property C02).
 -/
